@@ -37,6 +37,10 @@ CLAIMED = {
             'bounded, solver-complete inside the bound: for 2 workers x <=3 draws (3 workers x 1 draw) and ALL seeds and interleavings each worker draws its sequential stream; a seeded stream never consults the clock (one known finding excluded); for thread counts 1..3 the validation structure and the set of seeds consumed are those of the sequential run',
             'sequential consistency; libpthread / OS scheduler / weak memory outside; generator arithmetic uninterpreted in schedule obligations; workers synchronous in the driver obligations',
             'DESIGN.md 5/C06'),
+    'C01': ('CBMC symbolic execution of one pass of the real NIPALS loop per component from an arbitrary loop-head state (guarded hook) -> SMT VC over the reals -> z3 nlsat; assert-then-assume chains closed by opaque-variable lemma obligations',
+            'bounded, solver-complete inside the bound: for every real data matrix on the shape grid and EVERY loop-head state, the pass that exits yields a unit loading, scores = projection, residual orthogonal to it, the orthogonality invariant step, variance bookkeeping, dmodx; predictors = the training step / the back-transformation, for 1..2 worker threads',
+            'one pass from any state + induction replaces whole runs; convergence (hence ordering of variances and the 100 % total) outside; exact reals; scaling -1 for the pass (other options compose with C10 through the single MatrixPreprocess call); nonzero divisors',
+            'DESIGN.md 5/C01'),
 }
 NA = {
     'C16': 'behaviour lives inside SQLite and libc decimal formatting (FFI + file I/O); nothing of it is source in /repo that could be executed symbolically - an encoding would verify a hand-written SQL fake, not the code',
